@@ -47,7 +47,8 @@ func shapeOK(e *expr.Expression) bool {
 		// field:value; the value may be a term or a parenthesised group (field grouping)
 		return isLeafExpr(e.Left) && isOperandExpr(e.Right)
 	case expr.Greater, expr.Less, expr.GreaterEq, expr.LessEq:
-		return isLeafExpr(e.Left) && isLeafExpr(e.Right)
+		// C10 names no rule for the operand of a comparison (C06's derivation oracle requires a single term)
+		return isLeafExpr(e.Left) && isOperandExpr(e.Right)
 	case expr.Like:
 		if !isLeafExpr(e.Left) || !isLeafExpr(e.Right) {
 			return false
